@@ -1,4 +1,4 @@
-(* bgzf::io::Writer over a sink that accepts every byte: noodles-bgzf/src/io/writer.rs
+(* bgzf::io::Writer (with the is_finished flag of fix be585e3) over a sink that accepts every byte: noodles-bgzf/src/io/writer.rs
    (write, flush, flush_block, try_finish, finish, into_inner, Drop, virtual_position) and
    deflate.rs::encode.  DEFLATE is a section variable; CRC-32 is NV.Bgzf.Crc32. *)
 From Coq Require Import List Arith NArith Bool.
@@ -14,12 +14,13 @@ Record wstate := mk_wstate {
   w_pos : N;                 (* position *)
   w_staging : list N;        (* staging_buf *)
   w_sink : list N;           (* everything the inner writer has received *)
-  w_inner : bool             (* inner.is_some() *)
+  w_inner : bool;            (* inner.is_some() *)
+  w_finished : bool          (* is_finished: the last thing written is the EOF block *)
 }.
 
-Definition w_init : wstate := mk_wstate 0 [] [] true.
+Definition w_init : wstate := mk_wstate 0 [] [] true false.
 
-Inductive op := OWrite (buf : list N) | OWriteAll (buf : list N) | OFlush.
+Inductive op := OWrite (buf : list N) | OWriteAll (buf : list N) | OFlush | OTryFinish.
 Inductive ending := EFinish | ETryFinishInto | EDrop | ETryFinishDrop.
 
 Section Writer.
@@ -40,12 +41,14 @@ Section Writer.
     | Panic => (st, Panic)
     | Err e => (st, Err e)
     | Ok (cdata, crc) =>
+        (* is_finished is cleared before the frame is written: a block after the EOF block
+           requires a new EOF block *)
         let '(out, r) := write_frame cdata crc (lenN (w_staging st)) in
         let sink' := w_sink st ++ out in
         match r with
-        | Ok block_size => (mk_wstate (w_pos st + block_size) [] sink' (w_inner st), Ok tt)
-        | Err e => (mk_wstate (w_pos st) (w_staging st) sink' (w_inner st), Err e)
-        | Panic => (mk_wstate (w_pos st) (w_staging st) sink' (w_inner st), Panic)
+        | Ok block_size => (mk_wstate (w_pos st + block_size) [] sink' (w_inner st) false, Ok tt)
+        | Err e => (mk_wstate (w_pos st) (w_staging st) sink' (w_inner st) false, Err e)
+        | Panic => (mk_wstate (w_pos st) (w_staging st) sink' (w_inner st) false, Panic)
         end
     end.
 
@@ -61,7 +64,7 @@ Section Writer.
     if MAX_BUF_SIZE <? lenN (w_staging st) then (st, Panic)
     else
       let amt := N.min (MAX_BUF_SIZE - lenN (w_staging st)) (lenN buf) in
-      let st1 := mk_wstate (w_pos st) (w_staging st ++ firstn (N.to_nat amt) buf) (w_sink st) (w_inner st) in
+      let st1 := mk_wstate (w_pos st) (w_staging st ++ firstn (N.to_nat amt) buf) (w_sink st) (w_inner st) (w_finished st) in
       if lenN (w_staging st1) <? MAX_BUF_SIZE then (st1, Ok amt)
       else
         match flush lvl st1 with
@@ -96,12 +99,14 @@ Section Writer.
   Definition try_finish (lvl : N) (st : wstate) : wstate * res unit :=
     match flush lvl st with
     | (st1, Ok _) =>
-        (mk_wstate (w_pos st1 + 28) (w_staging st1) (w_sink st1 ++ eof_block) (w_inner st1), Ok tt)
+        if w_finished st1 then (st1, Ok tt)   (* already finished: no second EOF block *)
+        else
+          (mk_wstate (w_pos st1 + 28) (w_staging st1) (w_sink st1 ++ eof_block) (w_inner st1) true, Ok tt)
     | other => other
     end.
 
   Definition take_inner (st : wstate) : wstate :=
-    mk_wstate (w_pos st) (w_staging st) (w_sink st) false.
+    mk_wstate (w_pos st) (w_staging st) (w_sink st) false (w_finished st).
 
   (* Drop::drop *)
   Definition drop (lvl : N) (st : wstate) : wstate :=
@@ -124,6 +129,12 @@ Section Writer.
         end
     | OFlush =>
         match flush lvl st with
+        | (st1, Ok _) => (st1, Ok None)
+        | (st1, Err e) => (st1, Err e)
+        | (st1, Panic) => (st1, Panic)
+        end
+    | OTryFinish =>
+        match try_finish lvl st with
         | (st1, Ok _) => (st1, Ok None)
         | (st1, Err e) => (st1, Err e)
         | (st1, Panic) => (st1, Panic)
